@@ -5,7 +5,8 @@
    values, parameters, mailbox names; CR/LF/NUL-free error texts; CRLF on every tagged line).
    Spec/RespTok.v is an independent reader written from RFC 3501.  Header values, mailbox
    names and error texts are arbitrary byte lists. *)
-From Asimap Require Import Base.Res Model.BodyAlg Model.Fmt Spec.RespTok Proofs.BodyAlgP Proofs.FmtP.
+From Asimap Require Import Base.Res Model.BodyAlg Model.Fmt Spec.RespTok Proofs.BodyAlgP Proofs.FmtP Proofs.QuoteBridge.
+From Asimap Require Gen.Quote.
 Open Scope Z_scope.
 
 (* decoding an encoded string gives back the value, for EVERY byte list (quoted or literal),
@@ -13,6 +14,20 @@ Open Scope Z_scope.
 Theorem C07_string_roundtrip : forall b rest, read_string (enc_string b ++ rest) = Some (b, rest).
 Proof. exact read_string_enc. Qed.
 Print Assumptions C07_string_roundtrip.
+
+(* the encoder of the model IS utils.imap_string as regenerated from the source on every run
+   (Gen/Quote.v), so the round trip holds of the generated function itself: it never raises, and a
+   reader written from the RFC grammar gets back exactly the value and exactly the rest *)
+Theorem C07_string_encoder_is_the_generated_one : forall b, Gen.Quote.imap_string b = Ok (enc_string b).
+Proof. exact imap_string_is_enc_string. Qed.
+Print Assumptions C07_string_encoder_is_the_generated_one.
+
+Theorem C07_generated_string_roundtrip : forall b rest,
+  exists w, Gen.Quote.imap_string b = Ok w /\ read_string (w ++ rest) = Some (b, rest).
+Proof.
+  intros b rest. exists (enc_string b). split; [exact (imap_string_is_enc_string b)|exact (read_string_enc b rest)].
+Qed.
+Print Assumptions C07_generated_string_roundtrip.
 
 (* unquote (quote b) = b for every byte list without CR/LF/NUL ... *)
 Theorem C07_quote_roundtrip : forall b rest, needs_literal b = false ->
